@@ -109,7 +109,7 @@ class State:
         s.frames = []; s.regions = {}; s.next_rid = 1; s.pc = []; s.inputs = []; s.exc = None
         s.steps = 0; s.notes = []; s.allocs = []; s.objs = {}; s.writing = 0
         s.observations = []; s.reached = set(); s.choices = []; s.alloc_count = 0; s.bytes_req = 0; s.max_req = 0
-        s.asserts_seen = set(); s.dead_asserts = set()
+        s.asserts_seen = set(); s.dead_asserts = set(); s.frozen_alloc_ids = frozenset()
     def clone(s):
         t = State.__new__(State)
         t.frames = [f.clone() for f in s.frames]; t.regions = {k: r.clone() for k, r in s.regions.items()}
@@ -117,7 +117,7 @@ class State:
         t.notes = list(s.notes); t.allocs = list(s.allocs); t.objs = dict(s.objs); t.writing = s.writing
         t.observations = list(s.observations); t.reached = set(s.reached); t.choices = list(s.choices)
         t.alloc_count = s.alloc_count; t.bytes_req = s.bytes_req; t.max_req = s.max_req
-        t.asserts_seen = set(s.asserts_seen); t.dead_asserts = set(s.dead_asserts)
+        t.asserts_seen = set(s.asserts_seen); t.dead_asserts = set(s.dead_asserts); t.frozen_alloc_ids = s.frozen_alloc_ids
         return t
 
 
@@ -436,6 +436,7 @@ class Executor:
         if k in ('undef', 'zero'):
             ty = resolve(s.mod, v.ty)
             if isinstance(ty, (StructTy, ArrTy)): return s.zero_agg(ty)
+            if isinstance(ty, VecTy): return [0] * ty.n
             return 0
         if k == 'global': return s.global_addr(st, c[1])
         if k == 'fp' or k == 'fphex':
@@ -686,6 +687,7 @@ class Executor:
     def bits_of(s, ty):
         r = resolve(s.mod, ty)
         if isinstance(r, PtrTy): return 64
+        if isinstance(r, FloatTy): return sizeof(s.mod, r) * 8
         if isinstance(r, IntTy): return r.n
         return sizeof(s.mod, r) * 8
 
@@ -752,8 +754,25 @@ class Executor:
             rf, rt = resolve(mod, fty), resolve(mod, tty)
             nf, nt = s.bits_of(fty), s.bits_of(tty)
             fl_f, fl_t = isinstance(rf, FloatTy), isinstance(rt, FloatTy)
+            vec_f = isinstance(rf, VecTy); vec_t = isinstance(rt, VecTy)
+            if (vec_f or vec_t) and op != 'bitcast': raise Unsupported("vector " + op)
+            def vec_to_int(x, ty):
+                w = s.bits_of(ty.el); acc = 0
+                for k, e in enumerate(x):
+                    if isinstance(e, int) and isinstance(acc, int): acc |= e << (w * k)
+                    else: acc = simp(bv(acc, w * ty.n) | (z3.ZeroExt(w * ty.n - w, bv(e, w)) << (w * k)))
+                return acc
+            def int_to_vec(x, ty):
+                w = s.bits_of(ty.el)
+                return [((x >> (w * k)) & ((1 << w) - 1)) if isinstance(x, int) else simp(z3.Extract(w * k + w - 1, w * k, x)) for k in range(ty.n)]
             def run(st, fr, work):
                 x = v(st, fr)
+                if vec_f or vec_t:
+                    if vec_f and vec_t:
+                        r = int_to_vec(vec_to_int(x, rf), rt)
+                    elif vec_f: r = vec_to_int(x, rf)
+                    else: r = int_to_vec(x, rt)
+                    fr.regs[dest] = r; fr.pc += 1; return
                 if nf == 1 and not isinstance(x, int): x = s.as_bv(x, 1)
                 if op in ('bitcast', 'addrspacecast'): r = x
                 elif op in ('zext', 'ptrtoint', 'inttoptr') and nt >= nf:
@@ -789,7 +808,13 @@ class Executor:
         if op == 'load':
             p.eat('atomic'); p.eat('volatile'); ty = p.type(); p.expect(','); pty, ptr = ty_op()
             rty = resolve(mod, ty)
-            if isinstance(rty, (StructTy, ArrTy, VecTy)): raise Unsupported("aggregate load")
+            if isinstance(rty, VecTy):
+                esz = sizeof(mod, rty.el); cnt = rty.n
+                def run(st, fr, work):
+                    base = ptr(st, fr)
+                    fr.regs[dest] = [s.load(st, s.add64(base, k * esz), esz) for k in range(cnt)]; fr.pc += 1
+                return run
+            if isinstance(rty, (StructTy, ArrTy)): raise Unsupported("aggregate load")
             nb = sizeof(mod, ty); isb = isinstance(rty, IntTy) and rty.n == 1
             def run(st, fr, work):
                 v = s.load(st, ptr(st, fr), nb)
@@ -799,7 +824,14 @@ class Executor:
         if op == 'store':
             p.eat('atomic'); p.eat('volatile'); ty, v = ty_op(); p.expect(','); pty, ptr = ty_op()
             rty = resolve(mod, ty); nb = sizeof(mod, ty)
-            if isinstance(rty, (StructTy, ArrTy, VecTy)): raise Unsupported("aggregate store")
+            if isinstance(rty, VecTy):
+                esz = sizeof(mod, rty.el); cnt = rty.n
+                def run(st, fr, work):
+                    base = ptr(st, fr); x = v(st, fr)
+                    for k in range(cnt): s.store(st, s.add64(base, k * esz), x[k], esz)
+                    fr.pc += 1
+                return run
+            if isinstance(rty, (StructTy, ArrTy)): raise Unsupported("aggregate store")
             isb = isinstance(rty, IntTy) and rty.n == 1
             nbits = rty.n if isinstance(rty, IntTy) else 8 * nb
             def run(st, fr, work):
@@ -897,6 +929,20 @@ class Executor:
                 for i in path[:-1]: cur = cur[i]
                 cur[path[-1]] = ev(st, fr)
                 fr.regs[dest] = x; fr.pc += 1
+            return run
+        if op == 'insertelement':
+            vty, v = ty_op(); p.expect(','); ety, e = ty_op(); p.expect(','); ity, i = ty_op()
+            def run(st, fr, work):
+                x = list(v(st, fr)); k = i(st, fr)
+                if not isinstance(k, int): raise Unsupported("symbolic vector index")
+                x[k] = e(st, fr); fr.regs[dest] = x; fr.pc += 1
+            return run
+        if op == 'extractelement':
+            vty, v = ty_op(); p.expect(','); ity, i = ty_op()
+            def run(st, fr, work):
+                k = i(st, fr)
+                if not isinstance(k, int): raise Unsupported("symbolic vector index")
+                fr.regs[dest] = v(st, fr)[k]; fr.pc += 1
             return run
         if op in ('call', 'invoke'):
             return s.decode_call(f, dest, p, op)
@@ -1286,6 +1332,8 @@ class Executor:
             ok, _ = s.sat(st, [z3.UGT(bytes_, lim)])
             if ok: s.violation(st, 'BOUNDS', f'allocation request may exceed {lim} bytes (size arithmetic wrapped or bound too small)')
         elif bytes_ > (1 << 23): s.violation(st, 'BOUNDS', f'allocation request of {bytes_} bytes (size arithmetic wrapped?)')
+        if st.frozen_alloc_ids and isinstance(aid, int) and aid in st.frozen_alloc_ids:
+            s.violation(st, 'RACE-WRITE', f'allocation through allocator instance {aid} of a shared container during a const operation (the allocator state is shared)')
         mode = s.slack_mode
         if s.pinned is not None: choices = [align if mode != 'zero' else 0]
         elif mode == 'both': choices = [align, 0]
@@ -1406,7 +1454,13 @@ class Executor:
                 r2 = r.clone() if not r.own else r
                 r2.frozen = True; st.regions[rid] = r2
         return None
+    def ext_verif_freeze_allocs(s, st, fr, a, w):
+        """the allocator instances of all live blocks become shared state: allocating / deallocating through them is a write"""
+        st.frozen_alloc_ids = frozenset(st.regions[rid].alloc_id for rid in st.allocs if st.regions[rid].live and isinstance(st.regions[rid].alloc_id, int))
+        return None
+
     def ext_verif_thaw(s, st, fr, a, w):
+        st.frozen_alloc_ids = frozenset()
         for rid, r in list(st.regions.items()):
             if r.frozen:
                 r2 = r.clone() if not r.own else r
